@@ -353,7 +353,8 @@ namespace avel {
         }
 
         AVEL_FINL Vector& operator*=(Vector rhs) {
-            content *= decay(rhs);
+            // Multiply as unsigned int: promotion to int would overflow for large operands
+            content = static_cast<primitive>(static_cast<unsigned>(content) * static_cast<unsigned>(decay(rhs)));
             return *this;
         }
 
